@@ -329,7 +329,13 @@ def same(a, b, exact=True, atol=1e-300):
         return False
     if a.dtype == torch.bool or exact:
         return bool(torch.equal(a, b)) if not a.dtype.is_floating_point else bool(torch.allclose(a, b, rtol=0, atol=0, equal_nan=True))
-    return bool(torch.allclose(a, b, rtol=1e-12, atol=atol, equal_nan=True))
+    if bool(torch.allclose(a, b, rtol=1e-12, atol=atol, equal_nan=True)):
+        return True
+    # at the overflow boundary an inexact operation (a norm of entries near 1e154 ... 1e308) may come out as inf in one
+    # evaluation order and as a huge finite number in another: both sides beyond 1e300 in magnitude, same sign
+    bad = ~torch.isclose(a, b, rtol=1e-12, atol=atol, equal_nan=True)
+    huge = (a.abs() >= 1e300) & (b.abs() >= 1e300) & (torch.sign(a) == torch.sign(b))
+    return bool((huge | ~bad).all())
 
 
 def list_eq(x_, y_):
